@@ -2928,6 +2928,7 @@ def resolve_reaching(fn: ast.FunctionDef, e: ast.expr, at: ast.stmt, keep=(), pa
     import copy
 
     pos = pos or _block_defs(fn)
+    all_params = {a.arg for a in fn.args.args + fn.args.kwonlyargs} | set(params)
     assigned = {n_ for x in ast.walk(fn) if isinstance(x, (ast.Assign, ast.AugAssign, ast.For)) for n_ in (set().union(*[_target_names(t) for t in x.targets]) if isinstance(x, ast.Assign) else _target_names(x.target))}
 
     # names whose value may depend on a kept symbol (flow-insensitive closure): only those matter when they cannot be resolved
@@ -2945,12 +2946,14 @@ def resolve_reaching(fn: ast.FunctionDef, e: ast.expr, at: ast.stmt, keep=(), pa
     def go(expr, at_, d):
         class T(ast.NodeTransformer):
             def visit_Name(self, n):
-                if not isinstance(n.ctx, ast.Load) or n.id in keep or n.id in params or n.id not in assigned:
+                if not isinstance(n.ctx, ast.Load) or n.id in keep or n.id not in assigned:
                     return n
                 lost = ast.Name(id="__unresolved__", ctx=ast.Load()) if (n.id in tainted or not keep) else n
                 if d <= 0:
                     return lost
                 st = reaching_assign(fn, at_, n.id, pos)
+                if st is None and n.id in all_params and not _assigned_before(fn, at_, n.id, pos):
+                    return n  # a parameter that still holds the caller's value here
                 if st is None or len(st.targets) != 1 or not isinstance(st.targets[0], ast.Name):
                     return lost
                 return go(copy.deepcopy(st.value), st, d - 1)
@@ -2961,6 +2964,21 @@ def resolve_reaching(fn: ast.FunctionDef, e: ast.expr, at: ast.stmt, keep=(), pa
         return T().visit(copy.deepcopy(expr))
 
     return go(e, at, depth)
+
+
+def _assigned_before(fn, at, name, pos) -> bool:
+    """some assignment to `name` (at any nesting) textually precedes `at` in its own statement list or an enclosing one"""
+    cur = at
+    while cur is not None and id(cur) in pos:
+        stmts, i, up = pos[id(cur)]
+        for s_ in stmts[:i]:
+            for x in ast.walk(s_):
+                if isinstance(x, ast.Assign) and any(name in _target_names(t) for t in x.targets):
+                    return True
+                if isinstance(x, (ast.AugAssign, ast.For)) and name in _target_names(x.target):
+                    return True
+        cur = up
+    return False
 
 
 def error_quadratic(r: R, chk, qual: str, rule="ERROR-QUADRATIC"):
@@ -3282,4 +3300,76 @@ def poly_only_param(r: R, chk, qual: str, weights: str = "weights", callee_suffi
                detail="" if ok else f"{qual}: `{seg(cr.node, 60)}` (the polynomial basis) can be reached with weights that are not None (tests on the way: {', '.join(sorted(('' if p_ else 'not ') + t_ for t_, p_ in facts)) or 'none'}): the collocation matrix of a rational curve is built from N_i instead of R_i = w_i N_i / sum w_k N_k — different functions for every degree >= 1 — so the fit is not the least-squares fit in the curve's own space",
                func=qual, construct="polynomial basis for a rational curve")
     chk.floor(rule, f"calls of {callee_suffix} in {qual}", n, floor)
+    return n
+
+
+# ---------------------------------------------------------------------------------------------------------
+# SPANS-UNION: the Gram matrices are integrated span by span of the UNION of both knot sets
+def _union_operands(e):
+    """operands of a set union written as set(A + B), set(A) | set(B), set(A).union(B), {*A, *B}, through sorted / list / tuple;
+    ('inter', ...) for an intersection; None for anything else"""
+    while isinstance(e, ast.Call) and seg(e.func) in ("sorted", "list", "tuple", "np.unique", "np.array") and e.args:
+        e = e.args[0]
+    if isinstance(e, ast.Call) and seg(e.func) in ("set", "frozenset") and len(e.args) == 1:
+        inner = e.args[0]
+        if isinstance(inner, ast.BinOp) and isinstance(inner.op, ast.Add):
+            return ("union", [inner.left, inner.right])
+        return ("single", [inner])
+    if isinstance(e, ast.BinOp) and isinstance(e.op, (ast.BitOr, ast.BitAnd)):
+        l, r_ = _union_operands(e.left), _union_operands(e.right)
+        ops = (l[1] if l else [e.left]) + (r_[1] if r_ else [e.right])
+        return ("union" if isinstance(e.op, ast.BitOr) else "inter", ops)
+    if isinstance(e, ast.Call) and isinstance(e.func, ast.Attribute) and e.func.attr in ("union", "intersection") and e.args:
+        l = _union_operands(e.func.value)
+        ops = (l[1] if l else [e.func.value]) + list(e.args)
+        return ("union" if e.func.attr == "union" else "inter", ops)
+    if isinstance(e, ast.Set) and all(isinstance(x, ast.Starred) for x in e.elts):
+        return ("union", [x.value for x in e.elts])
+    if isinstance(e, ast.BinOp) and isinstance(e.op, ast.Add):
+        return ("union", [e.left, e.right])
+    return None
+
+
+def spans_union(r: R, chk, qual: str, rule="SPANS-UNION"):
+    """Products of basis functions of the source and of the target space are polynomial only between consecutive knots of the UNION
+    of both knot sets; a fixed rule per span of one of the two vectors (or of their intersection) integrates across a breakpoint of
+    the other basis: the Gram matrices are wrong (or singular) as soon as the other space has a knot of its own."""
+    ctx = r.root(qual)
+    fi = ctx.fi
+    fn = fi.node
+    pos = _block_defs(fn)
+    kvparams = [p for p in fi.params if "knotvector" in p.lower()]
+    n = 0
+    for lp in ast.walk(fn):
+        if not isinstance(lp, ast.For):
+            continue
+        x = _consecutive_pairs(lp.iter)
+        if x is None or not isinstance(x, ast.Name):
+            continue
+        # only the loop that integrates: it calls the evaluation of both bases
+        if not any(isinstance(c, ast.Call) and seg(c.func).endswith(("eval_rational_nodes", "eval_spline_nodes")) for c in ast.walk(lp)):
+            continue
+        n += 1
+        d = reaching_assign(fn, lp, x.id, pos)
+        expr = d.value if d is not None else None
+        form = _union_operands(expr) if expr is not None else None
+        why = ""
+        ok = False
+        if form is None:
+            why = f"`{x.id}` is not written as a union of two knot sets (`{seg(expr, 50) if expr is not None else '?'}`)"
+        elif form[0] != "union":
+            why = f"`{seg(expr, 50)}` is {'an intersection' if form[0] == 'inter' else 'one knot set only'}"
+        else:
+            srcs = []
+            for o in form[1]:
+                ro = resolve_reaching(fn, o, d, params=(), pos=pos)
+                srcs.append({y.id for y in ast.walk(ro) if isinstance(y, ast.Name) and y.id in kvparams})
+            seen = set().union(*srcs) if srcs else set()
+            ok = len(kvparams) >= 2 and all(p in seen for p in kvparams[:2])
+            if not ok:
+                why = f"`{seg(expr, 50)}` is built from {sorted(seen) or 'neither knot vector'} only"
+        chk.ob(rule, f"{qual}: the integration loop over `{seg(lp.iter, 40)}` runs over the union of both knot sets", ok, loc=f"{fi.module}.py:{lp.lineno}",
+               detail="" if ok else f"{qual}: the span-by-span quadrature runs over `{seg(lp.iter, 40)}`, but {why}: between two such points the other basis still has a breakpoint, the integrands are only piecewise polynomial there and the fixed rule is not exact — the Gram matrices are wrong (singular when one span holds more basis functions than nodes), so the projection is not the L2 projection and refining one operand changes / breaks the result",
+               func=qual, construct="quadrature spans are not the union of both knot sets")
+    chk.floor(rule, f"span-by-span integration loops in {qual}", n, 1)
     return n
